@@ -5,12 +5,14 @@ import DaskModel.Model.ChunksAuto
 import DaskModel.Model.Creation
 import DaskModel.Model.CreationFloat
 import DaskModel.Model.DiagonalNd
+import DaskModel.Model.CreationGrid
 import DaskModel.Model.Structural
 import DaskModel.Model.ShufflePlan
 import DaskModel.Model.ReshapeRechunk
 import DaskModel.Model.StructuralOps
 import DaskModel.Model.Counting
 import DaskModel.Model.CoarsenAlign
+import DaskModel.Model.Coarsen2D
 import DaskModel.Model.HistogramDD
 import DaskModel.Model.RavelIndex
 import DaskModel.Generated.ChunkTolerance
@@ -693,6 +695,22 @@ def hDaCoarsen : Handler := handler fun args =>
     | _, _ => pure c27Raised
   | _ => none
 
+/-- `(da_coarsen2 trim d0 d1 (cs0…) (cs1…) ((row…)…) (o0…) (o1…))` ↦ `(ok ((row…)…) ((row…)…))` (block-wise, whole) | `(raised)` -/
+def hDaCoarsen2 : Handler := handler fun args =>
+  match args with
+  | [t, d0, d1, cs0, cs1, rows, o0, o1] => do
+    let t ← t.toBool?
+    let d0 ← d0.toNat?
+    let d1 ← d1.toNat?
+    let cs0 ← cs0.toNats?
+    let cs1 ← cs1.toNats?
+    let rows ← rows.toNatss?
+    let red := fun (w : List (List Nat)) => Chunks.sum (w.map Chunks.sum)
+    match daCoarsen2With (← o0.toNats?) (← o1.toNats?) red t d0 d1 cs0 cs1 rows with
+    | some r => pure (.list [.sym "ok", SExp.ofNatss r, SExp.ofNatss (coarsen2 red d0 d1 (Chunks.sum cs1) rows)])
+    | none => pure c27Raised
+  | _ => none
+
 /-- `(histdd ((edges…)…) (((row…)…)…))` ↦ `(merged whole)` -/
 def hHistdd : Handler := handler fun args =>
   match args with
@@ -859,12 +877,37 @@ def hDiagK : Handler := handler fun args =>
     pure (encIntss ((List.range m).map (fun r => (List.range m).map (fun c => (diagKDen (0 : Int) cs xs k r c).getD 99))))
   | _ => none
 
+/-- `(meshgrid ((cs…)…) xy sparse)` ↦ for every output `j`: `(((chunks…)…) axis)` — its chunks and the axis along which
+    input `j` varies -/
+def hMeshgrid : Handler := handler fun args =>
+  match args with
+  | [cs, xy, sp] => do
+    let cs ← cs.toNatss?
+    let xy ← xy.toBool?
+    let sp ← sp.toBool?
+    pure (.list ((List.range cs.length).map (fun j =>
+      .list [SExp.ofNatss (meshgridChunks cs xy sp j), .int (sigma xy cs.length j)])))
+  | _ => none
+
+/-- `(grid ((chunks…)…))` ↦ for every block, in product order:
+    `((b…) (offs…) (sizes…) ((component 0 values…)…) (weighted-sum values…))`, values row-major -/
+def hGrid : Handler := handler fun args =>
+  match args with
+  | [cs] => do
+    let cs ← cs.toNatss?
+    pure (.list ((gridBlocks cs).map (fun (b, offs, sizes) =>
+      .list [SExp.ofNats b, SExp.ofNats offs, SExp.ofNats sizes,
+             SExp.ofNatss ((List.range cs.length).map (fun j => gridBlockVals (fun i => i.getD j 0) offs sizes)),
+             SExp.ofNats (gridBlockVals weightedSum offs sizes)])))
+  | _ => none
+
 
 def table : List (String × Handler) := [
   ("shuffle", hShuffle), ("diagonal", hDiagonal), ("diagonal_nd", hDiagonalNd), ("diagonal_read", hDiagonalRead), ("diag_k", hDiagK),
+  ("meshgrid", hMeshgrid), ("grid", hGrid),
   ("searchsorted", hSearchsorted), ("bincount_w", hBincountW), ("unique_inverse", hUniqueInverse), ("bincount", hBincount), ("histogram", hHistogram), ("unique", hUnique),
   ("unique_internal", hUniqueInternal), ("nonzero", hNonzero), ("coarsen_sum", hCoarsen),
-  ("aligned_coarsen", hAlignedCoarsen), ("da_coarsen", hDaCoarsen), ("histdd", hHistdd), ("hist2d", hHist2d),
+  ("aligned_coarsen", hAlignedCoarsen), ("da_coarsen", hDaCoarsen), ("da_coarsen2", hDaCoarsen2), ("histdd", hHistdd), ("hist2d", hHist2d),
   ("digitize", hDigitize), ("compress", hCompress), ("compress_np", hCompressNp), ("isin", hIsin), ("ss_blocks", hSsBlocks), ("unravel", hUnravel), ("ravel", hRavel), ("argwhere", hArgwhere),
   ("bincount_tree", hBincountTree),
   ("concat_plan", hConcatPlan), ("pad", hPad), ("pad_chunks", hPadChunks), ("roll", hRoll),
